@@ -6,6 +6,26 @@ from vlib import ref_cone as rc, gen_cone as gc, judge, runlp
 from checks import c03
 
 DEF = dict(kkt=None, solver=None, start="none", opts={})
+KNOWN = {"chol2-limit-singular": False}
+
+
+def known_chol2(mat, qp, dims):
+    """Known finding chol2-limit-singular (see vlib/known.py): judged against a reference optimum obtained
+    with the 'ldl' KKT solver."""
+    if not KNOWN["chol2-limit-singular"] or dims["q"] or dims["s"]:
+        return False
+    from vlib import known
+    try:
+        if qp:
+            ref = c03.call_qp(dict(entry="coneqp", kkt="ldl", form="matrix", opts={}, init=None, spP=False, spG=False,
+                                   spA=False, Pjunk=0.0, omitG=False), mat)
+        else:
+            ref = runlp.call(dict(DEF, entry="conelp", kkt="ldl", spG=False, spA=False), mat)
+    except Exception:
+        return False
+    if ref["status"] != "optimal":
+        return False
+    return known.chol2_limit_singular(mat, qp, rc.vec(ref["x"]), rc.vec(ref["s"]), rc.vec(ref["z"]), None)
 
 
 @st.composite
@@ -18,8 +38,8 @@ def case_strategy(draw):
     else:
         kind = "feas"
         prob = draw(gc.cone_case(kind="feas", kinds=kinds, qp=True))
-    paths = draw(st.lists(st.tuples(st.sampled_from(["conelp", "wrapper"]), st.booleans(), st.booleans()),
-                          min_size=2, max_size=2, unique=True))
+    paths = draw(st.lists(st.tuples(st.sampled_from(["conelp", "wrapper"] + (["cp"] if family == "qp" else [])),
+                                    st.booleans(), st.booleans()), min_size=2, max_size=2, unique=True))
     return dict(family=family, prob=prob, paths=[list(p) for p in paths])
 
 
@@ -71,6 +91,48 @@ def oracle(case, stats=None):
     D = judge.Data(c, mat["G"], mat["h"], mat["A"], mat["b"], dims, P=mat["P"] if qp else None, q=c if qp else None)
     results = []
     for (path, spG, spA) in case["paths"]:
+        if qp and path == "cp":
+            # the same QP through the nonlinear solver cp (objective as callback F), default KKT solver
+            from cvxopt import matrix as _m, solvers as _s
+            Pm, qm = gc.cvx_dense(mat["P"]), gc.cvx_dense(mat["q"])
+            n_ = mat["n"]
+
+            def Fq(x=None, z=None):
+                if x is None:
+                    return 0, _m(0.0, (n_, 1))
+                g = Pm * x + qm
+                f = 0.5 * (x.T * Pm * x)[0] + (qm.T * x)[0]
+                if z is None:
+                    return f, g.T
+                return f, g.T, z[0] * Pm
+            entry = "cp"
+            try:
+                sol = _s.cp(Fq, gc.cvx(mat["G"], spG), gc.cvx_dense(mat["h"]), dims, gc.cvx(mat["A"], spA),
+                            gc.cvx_dense(mat["b"]), options={"show_progress": False})
+            except Exception as e:
+                raise Violation("cp raised %s: %s on a well-posed %s instance" % (type(e).__name__, e, kind))
+            status = sol["status"]
+            labels.append("status:%s:%s" % (kind, status))
+            labels.append("entry:cp")
+            if status not in ("optimal", "unknown"):
+                raise Violation("cp reports %r on a strictly feasible convex problem" % status)
+            xv = rc.vec(sol["x"])
+            sl, zl = rc.vec(sol["sl"]), rc.vec(sol["zl"])
+            v = dict(x=xv, s=sl, y=rc.vec(sol["y"]), z=zl)
+            r, rx, ry, rz = sol_interval(D, v, True)
+            if status == "unknown" and not (r["pres"] <= 1e-5 and r["dres"] <= 1e-5 and r["gap"] <= 1e-5 * max(1.0, abs(r["pcost"]))):
+                if known_chol2(mat, True, dims):
+                    if stats is not None:
+                        stats.exclude("chol2-limit-singular")
+                    return
+                raise Violation("cp ended 'unknown' on a well-posed instance with pres %.2e dres %.2e gap %.2e" % (
+                    r["pres"], r["dres"], r["gap"]))
+            x0, s0, z0, y0 = mat["x0"], mat["s0"], mat["z0"], mat["y0"]
+            e_sol = abs(r["gap"]) + 10.0 * (judge.nrm(rx) * (judge.nrm(xv) + judge.nrm(x0)) + (judge.nrm(zl) + judge.nrm(z0)) * judge.nrm(rz)
+                                            + (judge.nrm(v["y"]) + judge.nrm(y0)) * judge.nrm(ry)) + 1e-9 * (
+                r["pcost_scale"] + r["dcost_scale"] + 1.0) + 1e-6 * (1 + abs(r["pcost"]))
+            results.append(("cp", r["dcost"] - e_sol, r["pcost"] + e_sol, r["pcost"]))
+            continue
         if qp:
             cfg = dict(entry="qp" if (path == "wrapper" and not dims["q"] and not dims["s"]) else "coneqp",
                        kkt=None, form="matrix", opts={}, init=None, spP=spG, spG=spG, spA=spA, Pjunk=0.0, omitG=False)
@@ -98,6 +160,10 @@ def oracle(case, stats=None):
             if status == "unknown":
                 # escape clause of the property: the final iterate must already be at the 1e-5 level
                 if not (r["pres"] <= 1e-5 and r["dres"] <= 1e-5 and r["gap"] <= 1e-5 * max(1.0, abs(r["pcost"]))):
+                    if known_chol2(mat, qp, dims):
+                        if stats is not None:
+                            stats.exclude("chol2-limit-singular")
+                        return
                     raise Violation("%s ended 'unknown' on a well-posed instance with pres %.2e dres %.2e gap %.2e "
                                     "(iterations %r)" % (entry, r["pres"], r["dres"], r["gap"], sol.get("iterations")))
                 labels.append("unknown_but_accurate")
@@ -159,8 +225,10 @@ def oracle(case, stats=None):
 
 
 def search(ctx, stats):
+    for k in KNOWN:
+        KNOWN[k] = ctx.known_active(k)
     n = ctx.n(10000, 200000)
-    v = run_given(case_strategy(), lambda c: oracle(c, stats), ctx.seed, n, stats)
+    v = run_given(case_strategy(), lambda c: oracle(c, stats), ctx.seed, n, stats, on_timeout="violation")
     return [v] if v else []
 
 
